@@ -534,6 +534,8 @@ class _Shared:
 class FakeQueue(_Shared):
     """multiprocessing.SimpleQueue stand-in: FIFO, atomic put, blocking get; `capacity` models the pipe"""
 
+    poison = frozenset()        # texts of messages that cannot be un-pickled by the reader: get() consumes them and raises
+
     def __init__(self, capacity=None):
         self.items = []
         self.capacity = capacity
@@ -556,6 +558,9 @@ class FakeQueue(_Shared):
         if s is not None and s.me() is not None:
             s.point("get?", self.key, blocked=lambda: not self.items)
             item = self.items.pop(0)
+            if isinstance(item, str) and str(item).strip() in FakeQueue.poison:
+                s.log_event("get", self.key, "poison:" + str(item).strip())
+                raise RuntimeError("the item could not be un-pickled")
             s.log_event("get", self.key, _item(item))
             return item
         if not self.items:
